@@ -476,7 +476,7 @@ func compareReports(t vt.TB, a, b gostatsd.Timer) {
 
 // ---------- histograms ----------
 
-var histItems = []string{"1", "2.5", "5", "10", "-10", "0", "25", "50", "1e3", "incorrect", "", "+Inf", "inf", "1", "5", "0x10", "1_", "٣"}
+var histItems = []string{"1", "2.5", "5", "10", "-10", "0", "25", "50", "1e3", "incorrect", "", "+Inf", "inf", "1", "5", "0x10", "1_", "٣", "0.7", "0.1", "16777216", "16777217", "123456789.123", "1e-7"}
 
 func TestHistograms(t *testing.T) {
 	rapid.Check(t, func(t *rapid.T) {
@@ -486,7 +486,7 @@ func TestHistograms(t *testing.T) {
 		n := rapid.IntRange(0, 15).Draw(t, "n")
 		pts := make([]point, n)
 		for i := range pts {
-			pts[i] = point{v: rapid.OneOf(rapid.SampledFrom([]float64{1, 2.5, 5, 10, -10, 0, 25, 50, 1000, math.Inf(1), math.Inf(-1)}), valueGen()).Draw(t, "v"), rate: rapid.SampledFrom([]float64{1, 0.5}).Draw(t, "rate")}
+			pts[i] = point{v: rapid.OneOf(rapid.SampledFrom([]float64{1, 2.5, 5, 10, -10, 0, 25, 50, 1000, math.Inf(1), math.Inf(-1), 0.7, 0.1, 16777216, 16777217, 123456789.123, 0.69999999}), valueGen()).Draw(t, "v"), rate: rapid.SampledFrom([]float64{1, 0.5}).Draw(t, "rate")}
 		}
 		otherTags := rapid.SampledFrom([][]string{nil, {"a:b"}, {"z"}}).Draw(t, "othertags")
 		tags := gostatsd.Tags(append(append([]string{}, otherTags...), tag))
